@@ -14,7 +14,7 @@ pub uninterp spec fn rec_default() -> Rec;
 /// L26: a map collected from a list of optional (key, value) entries, in list order (later entries win)
 pub open spec fn map_fold<K, V>(n: int, e: spec_fn(int) -> Option<(K, V)>) -> Map<K, V>
     decreases n
-{ if n <= 0 { Map::empty() } else { match e(n - 1) { Some(kv) => map_fold(n - 1, e).insert(kv.0, kv.1), None => map_fold(n - 1, e) } } }
+{ if n <= 0 { Map::empty() } else { match e(n - 1) { Option::Some(kv) => map_fold(n - 1, e).insert(kv.0, kv.1), Option::None => map_fold(n - 1, e) } } }
 pub struct OArr2 { pub n: int, pub m: int, pub at: spec_fn(int, int) -> Rec }
 pub uninterp spec fn rexp(x: real) -> real;
 pub uninterp spec fn rln(x: real) -> real;
